@@ -2,10 +2,10 @@ package main
 
 import (
 	"fmt"
-	"os"
 	"go/ast"
 	"go/constant"
 	"go/types"
+	"os"
 	"sort"
 
 	"golang.org/x/tools/go/ssa"
@@ -36,19 +36,19 @@ type Anchors struct {
 	NT        map[string]int64
 	NTName    map[int64]string
 
-	Exec     *ssa.Function // the evaluator
-	ExecSw   *EnumSwitch   // its switch over astNodeType
-	Helpers  []*ssa.Function // evaluator helpers taking the interpreter receiver
+	Exec    *ssa.Function   // the evaluator
+	ExecSw  *EnumSwitch     // its switch over astNodeType
+	Helpers []*ssa.Function // evaluator helpers taking the interpreter receiver
 
-	Parse, ParseExpr, Nud, Led                   *ssa.Function
-	ParseProjRHS, ParseDotRHS                    *ssa.Function
-	Match, Advance, Current, Lookahead, LookTok  *ssa.Function
-	Tokenize                                     *ssa.Function
-	Compile, MustCompile, Search, JPSearch       *ssa.Function
-	NewParser, NewLexer, NewInterp, NewFCaller   *ssa.Function
-	CallFunction, ResolveArgs, TypeCheck         *ssa.Function
-	IsFalse, ObjsEqual, IsSliceType              *ssa.Function
-	BindingPowers                                *ssa.Global
+	Parse, ParseExpr, Nud, Led                  *ssa.Function
+	ParseProjRHS, ParseDotRHS                   *ssa.Function
+	Match, Advance, Current, Lookahead, LookTok *ssa.Function
+	Tokenize                                    *ssa.Function
+	Compile, MustCompile, Search, JPSearch      *ssa.Function
+	NewParser, NewLexer, NewInterp, NewFCaller  *ssa.Function
+	CallFunction, ResolveArgs, TypeCheck        *ssa.Function
+	IsFalse, ObjsEqual, IsSliceType             *ssa.Function
+	BindingPowers                               *ssa.Global
 
 	Table []*TableEntry // the evaluated function table
 }
@@ -484,7 +484,9 @@ func (c *Ctx) resolveFuncAnchors(a *Anchors) {
 		}
 		return true
 	}
-	is := func(T types.Type) func(types.Type) bool { return func(t types.Type) bool { return types.Identical(t, T) } }
+	is := func(T types.Type) func(types.Type) bool {
+		return func(t types.Type) bool { return types.Identical(t, T) }
+	}
 	isInt, isStr, isBool := is(types.Typ[types.Int]), is(types.Typ[types.String]), is(types.Typ[types.Bool])
 	isErr := func(t types.Type) bool { return isErrorType(t) }
 	isNode, isTok, isToken := is(a.ASTNode), is(a.TokT), is(a.TokenT)
@@ -549,10 +551,16 @@ func (c *Ctx) resolveFuncAnchors(a *Anchors) {
 	// ---- Parser
 	P := a.ParserT
 	a.Nud = pick("the prefix handler of the parser: method (token) (ASTNode, error)", "nud",
-		where(func(f *ssa.Function) bool { return recvIs(f, P) && sig(f, []func(types.Type) bool{isToken}, []func(types.Type) bool{isNode, isErr}) }))
+		where(func(f *ssa.Function) bool {
+			return recvIs(f, P) && sig(f, []func(types.Type) bool{isToken}, []func(types.Type) bool{isNode, isErr})
+		}))
 	a.Led = pick("the infix handler of the parser: method (tokType, ASTNode) (ASTNode, error)", "led",
-		where(func(f *ssa.Function) bool { return recvIs(f, P) && sig(f, []func(types.Type) bool{isTok, isNode}, []func(types.Type) bool{isNode, isErr}) }))
-	intToNode := where(func(f *ssa.Function) bool { return recvIs(f, P) && sig(f, []func(types.Type) bool{isInt}, []func(types.Type) bool{isNode, isErr}) })
+		where(func(f *ssa.Function) bool {
+			return recvIs(f, P) && sig(f, []func(types.Type) bool{isTok, isNode}, []func(types.Type) bool{isNode, isErr})
+		}))
+	intToNode := where(func(f *ssa.Function) bool {
+		return recvIs(f, P) && sig(f, []func(types.Type) bool{isInt}, []func(types.Type) bool{isNode, isErr})
+	})
 	var pe, others []*ssa.Function
 	for _, f := range intToNode {
 		if calls(f, a.Nud) && calls(f, a.Led) {
@@ -566,7 +574,10 @@ func (c *Ctx) resolveFuncAnchors(a *Anchors) {
 		for _, b := range f.Blocks {
 			for _, in := range b.Instrs {
 				if st, ok := in.(*ssa.Store); ok {
-					if fa, ok := st.Addr.(*ssa.FieldAddr); ok && fa.Field == 0 && func() bool { pt, ok := fa.X.Type().(*types.Pointer); return ok && types.Identical(pt.Elem(), a.ASTNode) }() {
+					if fa, ok := st.Addr.(*ssa.FieldAddr); ok && fa.Field == 0 && func() bool {
+						pt, ok := fa.X.Type().(*types.Pointer)
+						return ok && types.Identical(pt.Elem(), a.ASTNode)
+					}() {
 						if k, ok := constInt(st.Val); ok && a.NTName[k] == "ASTIdentity" {
 							return true
 						}
@@ -587,17 +598,25 @@ func (c *Ctx) resolveFuncAnchors(a *Anchors) {
 	a.ParseProjRHS = pick("the projection right-hand side: method (int) (ASTNode, error) that can yield the identity node", "parseProjectionRHS", proj)
 	a.ParseDotRHS = pick("the right-hand side of a dot: method (int) (ASTNode, error)", "parseDotRHS", dot)
 	a.Parse = pick("Parser.Parse: method (string) (ASTNode, error)", "Parse",
-		where(func(f *ssa.Function) bool { return recvIs(f, P) && sig(f, []func(types.Type) bool{isStr}, []func(types.Type) bool{isNode, isErr}) }))
+		where(func(f *ssa.Function) bool {
+			return recvIs(f, P) && sig(f, []func(types.Type) bool{isStr}, []func(types.Type) bool{isNode, isErr})
+		}))
 	a.Match = pick("match: method (tokType) error", "match",
-		where(func(f *ssa.Function) bool { return recvIs(f, P) && sig(f, []func(types.Type) bool{isTok}, []func(types.Type) bool{isErr}) }))
+		where(func(f *ssa.Function) bool {
+			return recvIs(f, P) && sig(f, []func(types.Type) bool{isTok}, []func(types.Type) bool{isErr})
+		}))
 	a.Advance = pick("advance: method () of the parser that moves the token cursor", "advance",
 		where(func(f *ssa.Function) bool { return recvIs(f, P) && sig(f, nil, nil) && writesField(f, P, "index") }))
 	a.Current = pick("current: method () tokType", "current",
 		where(func(f *ssa.Function) bool { return recvIs(f, P) && sig(f, nil, []func(types.Type) bool{isTok}) }))
 	a.Lookahead = pick("lookahead: method (int) tokType", "lookahead",
-		where(func(f *ssa.Function) bool { return recvIs(f, P) && sig(f, []func(types.Type) bool{isInt}, []func(types.Type) bool{isTok}) }))
+		where(func(f *ssa.Function) bool {
+			return recvIs(f, P) && sig(f, []func(types.Type) bool{isInt}, []func(types.Type) bool{isTok})
+		}))
 	a.LookTok = pick("lookaheadToken: method (int) token", "lookaheadToken",
-		where(func(f *ssa.Function) bool { return recvIs(f, P) && sig(f, []func(types.Type) bool{isInt}, []func(types.Type) bool{isToken}) }))
+		where(func(f *ssa.Function) bool {
+			return recvIs(f, P) && sig(f, []func(types.Type) bool{isInt}, []func(types.Type) bool{isToken})
+		}))
 
 	// ---- Lexer
 	L := a.LexerT
@@ -606,7 +625,9 @@ func (c *Ctx) resolveFuncAnchors(a *Anchors) {
 		return ok && types.Identical(sl.Elem(), a.TokenT)
 	}
 	a.Tokenize = pick("tokenize: method (string) ([]token, error)", "tokenize",
-		where(func(f *ssa.Function) bool { return recvIs(f, L) && sig(f, []func(types.Type) bool{isStr}, []func(types.Type) bool{isTokSlice, isErr}) }))
+		where(func(f *ssa.Function) bool {
+			return recvIs(f, L) && sig(f, []func(types.Type) bool{isStr}, []func(types.Type) bool{isTokSlice, isErr})
+		}))
 
 	// ---- API and constructors (exported names are the API; unexported by result type)
 	a.Compile = c.libFunc("Compile")
@@ -623,9 +644,13 @@ func (c *Ctx) resolveFuncAnchors(a *Anchors) {
 	}
 	fcT := a.FCallerT
 	a.NewInterp = pick("constructor of the interpreter: func() *treeInterpreter", "newInterpreter",
-		where(func(f *ssa.Function) bool { return f.Signature.Recv() == nil && sig(f, nil, []func(types.Type) bool{ptrTo(a.InterpT)}) }))
+		where(func(f *ssa.Function) bool {
+			return f.Signature.Recv() == nil && sig(f, nil, []func(types.Type) bool{ptrTo(a.InterpT)})
+		}))
 	a.NewFCaller = pick("constructor of the function caller: func() *functionCaller", "newFunctionCaller",
-		where(func(f *ssa.Function) bool { return f.Signature.Recv() == nil && sig(f, nil, []func(types.Type) bool{ptrTo(fcT)}) }))
+		where(func(f *ssa.Function) bool {
+			return f.Signature.Recv() == nil && sig(f, nil, []func(types.Type) bool{ptrTo(fcT)})
+		}))
 	isIfaceSlice := func(t types.Type) bool {
 		sl, ok := t.Underlying().(*types.Slice)
 		return ok && iface(sl.Elem())
@@ -637,14 +662,22 @@ func (c *Ctx) resolveFuncAnchors(a *Anchors) {
 				f.Signature.Results().Len() == 2 && iface(f.Signature.Results().At(0).Type()) && isErr(f.Signature.Results().At(1).Type())
 		}))
 	a.ResolveArgs = pick("resolveArgs: method of a function entry ([]interface{}) ([]interface{}, error)", "resolveArgs",
-		where(func(f *ssa.Function) bool { return recvIs(f, a.FEntryT) && sig(f, []func(types.Type) bool{isIfaceSlice}, []func(types.Type) bool{isIfaceSlice, isErr}) }))
+		where(func(f *ssa.Function) bool {
+			return recvIs(f, a.FEntryT) && sig(f, []func(types.Type) bool{isIfaceSlice}, []func(types.Type) bool{isIfaceSlice, isErr})
+		}))
 	a.TypeCheck = pick("typeCheck: method of an argument specification (interface{}) error", "typeCheck",
-		where(func(f *ssa.Function) bool { return recvIs(f, a.ArgSpecT) && sig(f, []func(types.Type) bool{iface}, []func(types.Type) bool{isErr}) }))
+		where(func(f *ssa.Function) bool {
+			return recvIs(f, a.ArgSpecT) && sig(f, []func(types.Type) bool{iface}, []func(types.Type) bool{isErr})
+		}))
 	a.ObjsEqual = pick("deep equality: func(interface{}, interface{}) bool", "objsEqual",
-		where(func(f *ssa.Function) bool { return f.Signature.Recv() == nil && sig(f, []func(types.Type) bool{iface, iface}, []func(types.Type) bool{isBool}) }))
+		where(func(f *ssa.Function) bool {
+			return f.Signature.Recv() == nil && sig(f, []func(types.Type) bool{iface, iface}, []func(types.Type) bool{isBool})
+		}))
 	// truthiness and "is a slice": both func(interface{}) bool; the truth test is
 	// the one the evaluator's negation clause calls
-	preds := where(func(f *ssa.Function) bool { return f.Signature.Recv() == nil && sig(f, []func(types.Type) bool{iface}, []func(types.Type) bool{isBool}) })
+	preds := where(func(f *ssa.Function) bool {
+		return f.Signature.Recv() == nil && sig(f, []func(types.Type) bool{iface}, []func(types.Type) bool{isBool})
+	})
 	var truth, rest []*ssa.Function
 	if cl := a.ExecSw.clause("ASTNotExpression"); cl != nil {
 		for _, f := range preds {
